@@ -927,7 +927,7 @@ def bad_exc(op, e):
     return (e.code >= 100 and e.code != 800) or (e.code == 12 and op != 12)
 
 
-def oracle(ctx, kind, case, out):
+def _oracle(ctx, kind, case, out):
     F = []
 
     def fail(what, **kw):
@@ -1214,3 +1214,7 @@ def widen(ctx, disagreements):
         run("w:from_wire_tr", [17, m, off])
         run("w:construct_bad", [1, gen_invalid(ctx)])
     return F
+
+
+# failing cases are shrunk before they are reported (see namelib.with_shrinking)
+oracle = nl.with_shrinking("pC01", _oracle)
